@@ -273,9 +273,65 @@ fn one_config<S>(
     }
 }
 
+/// Comparisons of real states whose scores differ by as little as one ulp and by as much as a
+/// factor: cmp, == and max must follow the scores.
+fn compare_states(out: &mut Vec<Value>) {
+    fn emit<S: State>(out: &mut Vec<Value>, desc: &str, a: &S, b: &S) {
+        let (sa, sb) = match (a.score(), b.score()) {
+            (Some(x), Some(y)) => (x, y),
+            _ => return,
+        };
+        let ord = std::panic::catch_unwind(std::panic::AssertUnwindSafe(|| match a.cmp(b) {
+            std::cmp::Ordering::Less => -1,
+            std::cmp::Ordering::Equal => 0,
+            std::cmp::Ordering::Greater => 1,
+        }))
+        .unwrap_or(9);
+        let maxb = std::cmp::max(a.clone(), b.clone()).score().map(f64::to_bits) == Some(sb.to_bits())
+            && (sa.to_bits() != sb.to_bits() || true);
+        out.push(json!({"ev": "cmp", "desc": desc, "a_bits": hex(sa), "b_bits": hex(sb), "ord": ord, "eq": a == b,
+                        "maxb": if sa == sb { true } else { maxb }}));
+    }
+    // hard squares in p1 whose cell lengths differ by a few ulps up to a percent
+    let g = group("p1");
+    let base = PackedState::from_group(LineShape::polygon(4).unwrap(), &g).unwrap();
+    let j0 = serde_json::to_value(&base).unwrap();
+    let mk = |len: f64| -> PackedState<LineShape> {
+        let mut j = j0.clone();
+        j["cell"]["length"] = json!(len);
+        serde_json::from_value(j).unwrap()
+    };
+    let l0 = 3.3;
+    let lens: Vec<f64> = vec![l0, f64::from_bits(l0.to_bits() + 1), f64::from_bits(l0.to_bits() + 2), l0 * (1. + 1e-12),
+                              l0 * (1. + 3e-9), l0 * (1. + 6e-9), l0 * (1. + 9e-9), l0 * (1. + 1e-6), l0 * 1.01, l0 * 2.];
+    let states: Vec<PackedState<LineShape>> = lens.iter().map(|l| mk(*l)).collect();
+    for a in states.iter() {
+        for b in states.iter() {
+            emit(out, "hard squares p1", a, b);
+        }
+    }
+    // Lennard-Jones circles in p2: scores of both signs, tiny and large differences
+    let g = group("p2");
+    let base = PotentialState::from_group(LJShape2::circle(), &g).unwrap();
+    let j0 = serde_json::to_value(&base).unwrap();
+    let mk = |len: f64| -> PotentialState<LJShape2> {
+        let mut j = j0.clone();
+        j["cell"]["length"] = json!(len);
+        serde_json::from_value(j).unwrap()
+    };
+    let lens: Vec<f64> = vec![1.9, 1.9 * (1. + 1e-15), 1.9 * (1. + 2e-9), 1.9 * (1. + 4e-9), 1.9 * (1. + 7e-9), 2.3, 2.3 * (1. + 1e-9), 3.0, 1.5, 1.45];
+    let states: Vec<PotentialState<LJShape2>> = lens.iter().map(|l| mk(*l)).collect();
+    for a in states.iter() {
+        for b in states.iter() {
+            emit(out, "lj circles p2", a, b);
+        }
+    }
+}
+
 pub fn pool_runs(outp: &str, thorough: bool, seed: u64) {
     std::panic::set_hook(Box::new(|_| {}));
     let mut out: Vec<Value> = vec![];
+    compare_states(&mut out);
     let thread_counts: Vec<usize> = if thorough { vec![1, 2, 3, 4, 6, 8, 12, 16] } else { vec![1, 2, 4, 16] };
     // the pools live for the whole run: a worker thread that optimised one shape optimises another
     // later (as a long-lived process using the library would)
@@ -319,6 +375,26 @@ pub fn pool_runs(outp: &str, thorough: bool, seed: u64) {
         if let Some(st) = mk_lj_compact(g) {
             id += 1;
             one_config(&mut out, id, &format!("{} lj trimer compact cell", g), st, &args, reps, &threads);
+        }
+    }
+    // a cut Lennard-Jones disc in a cell narrower than a third of its range (more than three
+    // shells of images are summed)
+    for g in ["p1", "p2"].iter() {
+        let disc = LJShape2 {
+            name: "cut disc".into(),
+            items: vec![packing::LJ2 { position: nalgebra::Point2::new(0., 0.), sigma: 1., epsilon: 1., cutoff: Some(3.5) }],
+        };
+        if let Ok(st) = PotentialState::from_group(disc, &group(g)) {
+            if let Ok(mut j) = serde_json::to_value(&st) {
+                j["cell"]["length"] = json!(if *g == "p1" { 1.13 } else { 2.26 });
+                if *g == "p2" {
+                    j["cell"]["ratio"] = json!(0.5);
+                }
+                if let Ok(st) = serde_json::from_value::<PotentialState<LJShape2>>(j) {
+                    id += 1;
+                    one_config(&mut out, id, &format!("{} lj cut disc, narrow cell", g), st, &args, reps, &threads);
+                }
+            }
         }
     }
     // short hot runs: final LJ scores of both signs
